@@ -300,6 +300,8 @@ type c17Case struct {
 	Large bool `json:"after_large_documents,omitempty"`
 	// Preset: the Content-Type an earlier handler of the request had put on the response
 	Preset string `json:"content_type_set_before_the_render,omitempty"`
+	// Broken: the request follows requests whose underlying writer failed every body write
+	Broken bool `json:"after_requests_of_a_client_that_had_gone_away,omitempty"`
 }
 
 // c17Refused returns values of the same top-level type as v that the standard encoders refuse (a
@@ -352,6 +354,33 @@ func c17AfterLarge(o c17Opts, op c17Op, count func()) (bad, kind string) {
 
 // c17AfterRefused: on a fresh instance, a request that renders a refused value of op's type (whatever it
 // answers), then op, which must be rendered as on a fresh instance.
+// c17BrokenSpy: an underlying writer whose client has gone away - every body write fails.
+type c17BrokenSpy struct{ hdr http.Header }
+
+func (s *c17BrokenSpy) Header() http.Header         { return s.hdr }
+func (s *c17BrokenSpy) WriteHeader(int)             {}
+func (s *c17BrokenSpy) Write(b []byte) (int, error) { return 0, io.ErrClosedPipe }
+
+// c17AfterBroken: one or two requests whose response could not be written (the client had gone), then the
+// render again for a healthy client on the same instance.
+func c17AfterBroken(o c17Opts, op c17Op, count func()) (bad, kind string) {
+	for _, n := range []int{1, 2} {
+		w := c17Build(o)
+		w.op = op
+		for i := 0; i < n; i++ {
+			func() {
+				defer func() { _ = recover() }()
+				w.f.ServeHTTP(&c17BrokenSpy{hdr: http.Header{}}, newReq("GET", "/"))
+			}()
+		}
+		count()
+		if bad, kind = c17Judge(w, o, op); bad != "" {
+			return fmt.Sprintf("after %d earlier request(s) whose client had gone away (every body write failed): ", n) + bad, kind + "/after-broken-client"
+		}
+	}
+	return "", ""
+}
+
 func c17AfterRefused(o c17Opts, op c17Op, count func()) (bad, kind string) {
 	if op.Kind != "JSON" && op.Kind != "XML" {
 		return "", ""
@@ -431,7 +460,7 @@ func c17Run(r *core.Run) {
 		}
 	}
 	ops := c17Ops(r.Thorough())
-	r.Rule = "engine E: every status 100..999 x {JSON, XML, Binary, PlainText} x all 8 option sets (charset x JSON indent x XML indent); values: every byte string of length <=1 and a grid (thorough: all) of length 2 plus longer ones for Binary/PlainText, JSON trees over {null,bool,numbers,strings incl. html-sensitive and non-ASCII} to depth 2 width 2 plus structs/slices/maps, five XML struct shapes with all field values from {'', a, <&>\", e-acute, blanks, ]]>}; every fourth render also with each of nine Content-Type values already put on the response by an earlier handler; every third render also around requests through a route that carries a second Renderer with other options; every third render also inside sequences of large (2 KiB), medium and small bodies of its kind on the same instance; every JSON/XML value with an interface in it also as the request after one or two requests (same instance) whose value of the same type the encoder refused; oracle: exact status at the underlying writer, exact Content-Type, bytes/strings verbatim, JSON/XML text equal to the standard encoder's output with the configured indentation and decoding back to an equal value; non-trivial = non-200 status or a value that needs escaping"
+	r.Rule = "engine E: every status 100..999 x {JSON, XML, Binary, PlainText} x all 8 option sets (charset x JSON indent x XML indent); values: every byte string of length <=1 and a grid (thorough: all) of length 2 plus longer ones for Binary/PlainText, JSON trees over {null,bool,numbers,strings incl. html-sensitive and non-ASCII} to depth 2 width 2 plus structs/slices/maps, five XML struct shapes with all field values from {'', a, <&>\", e-acute, blanks, ]]>}; every fourth render also with each of nine Content-Type values already put on the response by an earlier handler; every third render also around requests through a route that carries a second Renderer with other options; every third render also inside sequences of large (2 KiB), medium and small bodies of its kind on the same instance; every fourth render also as the request after one or two requests whose underlying writer failed every body write; every JSON/XML value with an interface in it also as the request after one or two requests (same instance) whose value of the same type the encoder refused; oracle: exact status at the underlying writer, exact Content-Type, bytes/strings verbatim, JSON/XML text equal to the standard encoder's output with the configured indentation and decoding back to an equal value; non-trivial = non-200 status or a value that needs escaping"
 	r.Bounds["ops"] = len(ops)
 	r.Bounds["option_sets"] = len(optsets)
 	r.Assumptions = []string{"encoding/json and encoding/xml are the reference encoders (trusted)", "values the standard encoders refuse are outside the statement"}
@@ -560,9 +589,20 @@ func c17Run(r *core.Run) {
 					})
 					refused = bad != ""
 				}
+				broken := false
+				if bad == "" && (oi+si)%4 == 2 {
+					bad, kind = c17AfterBroken(o, op, func() {
+						l.States++
+						l.Evals++
+						l.Transitions += 2
+						l.Traces++
+						l.Extra["requests_after_a_broken_client"]++
+					})
+					broken = bad != ""
+				}
 				if bad != "" {
 					l.Class("mismatch")
-					l.Violate(kind+"/"+op.Kind, bad+fmt.Sprintf(" [options %+v, %s(%d, %s)]", o, op.Kind, op.Status, trunc(fmt.Sprintf("%#v", op.Val))), c17Case{Opts: o, Kind: op.Kind, Status: op.Status, Val: trunc(fmt.Sprintf("%#v", op.Val)), Index: oi, Refused: refused, Stacked: stacked, Large: afterLarge, Preset: preset,
+					l.Violate(kind+"/"+op.Kind, bad+fmt.Sprintf(" [options %+v, %s(%d, %s)]", o, op.Kind, op.Status, trunc(fmt.Sprintf("%#v", op.Val))), c17Case{Opts: o, Kind: op.Kind, Status: op.Status, Val: trunc(fmt.Sprintf("%#v", op.Val)), Index: oi, Refused: refused, Stacked: stacked, Large: afterLarge, Preset: preset, Broken: broken,
 						Seq: seq && !refused && stacked == nil && !afterLarge && (strings.HasPrefix(bad, "in the request sequence") || strings.HasPrefix(bad, "after an earlier request"))})
 					continue
 				}
@@ -690,6 +730,9 @@ func c17Replay(raw json.RawMessage) (bool, string) {
 			}
 			if bad == "" && c.Refused {
 				bad, _ = c17AfterRefused(c.Opts, ops[c.Index], func() {})
+			}
+			if bad == "" && c.Broken {
+				bad, _ = c17AfterBroken(c.Opts, ops[c.Index], func() {})
 			}
 			return bad != "", bad
 		}
